@@ -3,6 +3,7 @@ try:
     from collections.abc import Iterable
 except ImportError:
     from collections import Iterable
+from numbers import Integral
 from . import util
 
 
@@ -43,7 +44,9 @@ class Container:
         return len(self._backend)
 
     def __getitem__(self, item):
-        if isinstance(item, int):
+        if isinstance(item, Integral):
+            # (also one of NumPy's integers)
+            item = int(item)
             if item < 0:
                 item = len(self) + item
             if item < 0 or item >= len(self):
@@ -255,7 +258,7 @@ class LinkContainer(Container):
             self._backend.create_link(item, item.id)
 
     def __getitem__(self, identifier):
-        if isinstance(identifier, int):
+        if isinstance(identifier, Integral):
             return super(LinkContainer, self).__getitem__(identifier)
         else:
             if util.is_uuid(identifier) and identifier in self._backend:
